@@ -13,6 +13,10 @@ SPEC = {
          'sinks': {'C09_filter_all': 'filter_judge'}, 'n': {'quick': 900, 'thorough': 60000}},
         {'pkg': 'execute', 'src': 'harness/execute/c09_test.go', 'test': 'TestVerif_C09_pending', 'fakes': True,
          'sinks': {'C09_pending': 'pend_judge'}, 'n': {'quick': 400, 'thorough': 12000}},
+        {'pkg': 'execute', 'src': 'harness/execute/c09_test.go', 'test': 'TestVerif_C09_observe', 'fakes': True,
+         'sinks': {'C09_observe': 'pend_judge'}, 'n': {'quick': 6, 'thorough': 60}},
+        {'pkg': 'execute', 'src': 'harness/execute/c09_test.go', 'test': 'TestVerif_C09_history_big', 'fakes': True,
+         'sinks': {'C09_history_big': 'histmon_judge'}, 'n': {'quick': 1, 'thorough': 6}},
         {'pkg': 'execute', 'src': 'harness/execute/c09_test.go', 'test': 'TestVerif_C09_history', 'fakes': True,
          'sinks': {'C09_history': 'hist_judge'}, 'n': {'quick': 40, 'thorough': 1200}},
     ],
@@ -23,7 +27,12 @@ SPEC = {
             'shared number, and (filter part only) overlapping, start>end and beyond-the-query ranges. '
             'filter_all: enumeration of all layouts of <= 3 reports of length <= 3 with holes 0..1 x all executed subsets x 3 shapes '
             '(a prefix of the enumeration in the quick tier). pending: getPendingExecutedReports over 1..3 chains with commit '
-            'reports carrying one or several roots, reader failures. history: 40 histories of 6..30 OCR rounds of four real execute.Plugin '
+            'reports carrying one or several roots, reader failures. observe: execute.Plugin.Observation in the GetCommitReports phase on backlogs of 13..22 partially executed reports of 3000..6000 messages '
+            'numbered near 2^62, calibrated so that the encoded observation ends just below, above and far above maxObservationLength (6 cases of ~1 MiB '
+            'in the quick tier), judged like the pending part (executed set recorded = destination\'s executed set inside the interval, whatever the size). '
+            'history_big: a history that starts with such an oversized backlog (small report + 11..13 reports of 5001 messages with 5000 executed), '
+            'monitors only. history: the transmitted report is taken from execute.Plugin.Reports (decoded with the report codec), compared with the '
+            'outcome\'s Report field and applied to the model off-ramp; 40 histories of 6..30 OCR rounds of four real execute.Plugin '
             'instances (F=1, one of them silent or sending garbage in half of the histories) over a world of 1..2 source chains where commit '
             'reports land (with holes), executions land from elsewhere (singly, out of order, across reports) and the DON\'s own reports land '
             'fully / partly / never; the reader answers per-message, merged, chunked, repeated and touching ranges; every round\'s outcome is '
